@@ -124,6 +124,12 @@ func (a *Allocation) AddPermission(perms *Permission) {
 func (a *Allocation) RemovePermission(addr net.Addr) {
 	a.permissionsLock.Lock()
 	defer a.permissionsLock.Unlock()
+
+	// Nothing to remove (and nothing to report): the permission has already
+	// been removed, e.g. by Close while its expiry timer was firing.
+	if _, ok := a.permissions[ipnet.FingerprintAddr(addr)]; !ok {
+		return
+	}
 	delete(a.permissions, ipnet.FingerprintAddr(addr))
 
 	if a.eventHandler.OnPermissionDeleted != nil {
